@@ -1,5 +1,5 @@
 (* C07 — Tag expressions (v2) mean their Boolean formula; printing preserves meaning. *)
-From BV Require Import Base UStr TagExpr TagExprProofs.
+From BV Require Import Base UStr TagExpr TagExprProofs TagExprParseProofs.
 
 Theorem and_or_not_are_the_boolean_connectives :
   forall a b tags,
@@ -28,6 +28,29 @@ Proof. exact blanks_tokenize_to_nothing. Qed.
 Print Assumptions blank_text_has_no_tokens.
 
 (* non-vacuity: parsing with precedence, wildcards, escapes; printing and re-parsing *)
+(* The parser reads back what the printer writes: for every expression built from operands that are no keywords
+   (literals without, matchers with wildcard characters, names non-empty), printing it (Expression.__str__: operands
+   escaped, binary operators parenthesised), tokenizing that text and running the shunting-yard loop on the tokens
+   yields the very same expression.  (normalize_v2 - removing '@' and collapsing one double blank - is the identity on
+   printed texts whose names contain no '@'; that step is covered by the correspondence suite.) *)
+Theorem printing_then_parsing_gives_the_expression_back :
+  forall e, wf e = true -> named e = true ->
+  match tokenize (to_str e) with Some t => parse_tokens t | None => PErr ErrEscape end = POk e.
+Proof. exact print_then_parse_is_the_identity. Qed.
+Print Assumptions printing_then_parsing_gives_the_expression_back.
+
+Theorem the_tokenizer_reads_the_printed_text_back_into_its_tokens :
+  forall e, named e = true -> tokenize (to_str e) = Some (toks e).
+Proof.
+  intros e N. unfold tokenize. destruct (tokenizer_reads e N) as [_ T]. rewrite T. now rewrite app_nil_r, rev_involutive.
+Qed.
+Print Assumptions the_tokenizer_reads_the_printed_text_back_into_its_tokens.
+
+Theorem the_shunting_yard_loop_rebuilds_the_expression_from_its_tokens :
+  forall e, wf e = true -> parse_tokens (toks e) = POk e.
+Proof. exact parse_reads_back_what_print_writes. Qed.
+Print Assumptions the_shunting_yard_loop_rebuilds_the_expression_from_its_tokens.
+
 Example parse_print_parse :
   let s (l : list N) := l in
   let txt := (* a or not b and c* *) [97; 32; 111; 114; 32; 110; 111; 116; 32; 98; 32; 97; 110; 100; 32; 99; 42]%N in
